@@ -73,9 +73,9 @@ def _seq_attrs(m):
     for n in init.walk():
         if isinstance(n, ast.Assign) and isinstance(n.targets[0], ast.Attribute) and isinstance(n.value, ast.Name) and n.value.id in ps:
             got[n.value.id] = n.targets[0].attr
-    if len(ps) < 2 or ps[0] not in got or ps[1] not in got:
-        raise AnalysisError('AnsiControlSequence does not keep both constructor components')
-    return got[ps[0]], got[ps[1]]
+    if len(ps) < 2:
+        raise AnalysisError('AnsiControlSequence constructor lost a parameter')
+    return got.get(ps[0]), got.get(ps[1])
 
 
 @rule('P1', 'emit-order: formatted_str emits CSI, parameters, terminator of each recorded sequence contiguously and in order', floor=2)
@@ -83,6 +83,12 @@ def P1(m, R):
     F = get_folder(m)
     f = m.fn('ParsedAnsiControlSequenceString.formatted_str')
     seq_attr, term_attr = _seq_attrs(m)
+    ctor = m.fn('AnsiControlSequence.__init__')
+    R.check(seq_attr is not None and term_attr is not None, ctor, ctor.node, 'a recorded sequence keeps its parameter bytes and its final byte',
+            'the recorded sequence does not keep %s: it cannot be re-inserted' % ('its final byte' if term_attr is None else 'its parameter bytes'),
+            construct='recorded sequence components')
+    if seq_attr is None or term_attr is None:
+        return
     text_attr = None
     uf = m.fn('ParsedAnsiControlSequenceString.unformatted_str')
     for n in uf.walk():
